@@ -363,3 +363,24 @@ def gemdat_src_first():
     import warnings
     warnings.filterwarnings('ignore')
     return src
+
+
+def run_tlaps(module: str, timeout: int = 600) -> tuple[int, int]:
+    """Check spec/<module>.tla with the TLA+ proof system in a scratch directory. Returns (obligations, proved)."""
+    tmp = scratch('tlaps-')
+    try:
+        shutil.copy(SPEC / f'{module}.tla', tmp / f'{module}.tla')
+        try:
+            p = subprocess.run(['tlapm', '--threads', '4', f'{module}.tla'], cwd=str(tmp), stdout=subprocess.PIPE, stderr=subprocess.STDOUT,
+                               text=True, timeout=timeout)
+        except (subprocess.TimeoutExpired, FileNotFoundError) as ex:
+            raise Machinery(f'tlapm failed on {module}: {ex}') from ex
+        m = re.search(r'All (\d+) obligations? proved', p.stdout)
+        if m:
+            return int(m.group(1)), int(m.group(1))
+        m = re.search(r'(\d+)/(\d+) obligations? failed', p.stdout)
+        if m:
+            return int(m.group(2)), int(m.group(2)) - int(m.group(1))
+        raise Machinery(f'cannot read tlapm output for {module}:\n{p.stdout[-2000:]}')
+    finally:
+        shutil.rmtree(tmp, ignore_errors=True)
